@@ -373,11 +373,27 @@ func (c *Ctx) stageHTTP(refs map[refKey]*Ref, keys []refKey) {
 			continue
 		}
 		files := append([]string{ref.Sc.Main}, ref.Sc.FileNames()...)
-		for i := 0; i < n; i++ {
+		// systematic: the connection dies after 0, 1, 2 or all-but-one body bytes of every resource
+		var sysFaults []Fault
+		for _, fn := range files {
+			size := ref.Sc.MainSize
+			if sf, ok := ref.Sc.Files[fn]; ok {
+				size = sf.Size
+			}
+			for _, nb := range []int{0, 1, 2, size - 1} {
+				if nb >= 0 {
+					sysFaults = append(sysFaults, Fault{Op: "http", At: "url:" + fn, Kind: "trunc", N: nb})
+				}
+			}
+			sysFaults = append(sysFaults, Fault{Op: "http", At: "url:" + fn, Kind: "empty"})
+		}
+		for i := 0; i < n+len(sysFaults); i++ {
 			cfg := ref.Cfg
 			cfg.ViaHTTP = true
 			var faults []Fault
-			if i > 0 {
+			if i >= n {
+				faults = []Fault{sysFaults[i-n]}
+			} else if i > 0 {
 				fn := files[rng.Intn(len(files))]
 				kind := []string{"err", "trunc", "mime", "charset", "empty", "flip", "transient"}[rng.Intn(7)]
 				if kind == "flip" && textResource(ref.Sc, fn) {
